@@ -617,6 +617,7 @@ fn verdict_position() -> BoxedStrategy<String> {
     };
     prop_oneof![
         3 => gen::terminal_biased(),
+        1 => gen::smother_theme(),
         2 => (gen::pre_terminal(), 0u8..8).prop_map(|(fen, k)| {
             let mut p = Pos::from_fen(&fen).unwrap();
             p.half = if k == 7 { 99 } else { 0 };
@@ -820,6 +821,7 @@ fn notation_position_inner() -> BoxedStrategy<String> {
         2 => gen::material_extreme().prop_map(|r| gen::build(&r).fen()),
         1 => gen::crowded_promo().prop_map(|r| gen::build(&r).fen()),
         2 => gen::pre_terminal(),
+        1 => gen::smother_theme(),
         2 => gen::placement(24).prop_map(|r| gen::build(&r).fen()),
         3 => gen::walk(60).prop_map(|w| gen::walk_end(&w).fen()),
     ]
@@ -1151,6 +1153,18 @@ impl Prop for C18Positions {
         }
         // full score with terminal detection, both orientations
         let mut g = MoveGenerator::new();
+        // the same generator is first asked about the same placement with the OTHER side to move
+        // (where that is a consistent position): the answers below must not depend on it
+        {
+            let mut flipped = pos.clone();
+            flipped.side = pos.side.other();
+            flipped.ep = None;
+            if pos.ep.is_none() && flipped.consistent().is_ok() {
+                let mut bf = to_board(&flipped);
+                let _ = evaluate::score(&mut bf, &mut g, to_color(flipped.side), 0);
+                st.label("same-generator-asked-about-the-other-side-first");
+            }
+        }
         for d in [case.1, 0, 255] {
             let mut b1 = b.clone();
             let mut b2 = bt.clone();
